@@ -35,7 +35,7 @@ func (c12) Technique() string {
 	return "deterministic simulation with storage fault injection: per generated DAG, exhaustive single-block fault sweep (not-found, I/O error at open, I/O error mid-stream, corrupted bytes failing the hash check) plus k-th-load-fails-once for every k plus seeded 2-3 block subsets at the simulated block store; results compared with an independent reference model of what remains reachable"
 }
 func (c12) Rule() string {
-	return "one evaluation = one execution of one operation (sequential read via AsBytes or a Read loop; lookup by string/node/segment; full MapIterator iteration) on a fresh cold node with one fault plan installed in the simulated store; per seeded DAG the plan space {every non-root block} x {4 fault kinds}, {k-th load fails once, every k}, and a few random subsets is enumerated completely; non-trivial = a fault actually fired during the operation; distinct = distinct (operation, fault kind, role/depth of the faulted block, outcome, seam event sequence) signature"
+	return "one evaluation = one execution of one operation (sequential read via AsBytes or a Read loop from offset 0 or after a Seek to an arbitrary offset; lookup by string/node/segment, fresh node and twice on one node; preloading reification; full MapIterator iteration) under one fault plan in the simulated store, followed by a recovery pass (store healthy again: the same node must answer correctly); per seeded DAG the plan space {every non-root block} x {not-found, I/O error at open, I/O error mid-stream, corrupted bytes failing the hash check} + the same blocks with well-known error values (io.ErrUnexpectedEOF, *fs.PathError{ErrNotExist}, wrapped DeadlineExceeded, traversal.SkipMe, bare io.EOF, context.Canceled) + {k-th load fails once} + {store goes away at load k} + 2-3 block subsets is enumerated; non-trivial = a fault actually fired during the operation; distinct = distinct (operation, fault kind, role/depth of the faulted block, outcome, seam event sequence) signature"
 }
 func (c12) Assumptions() []string {
 	return []string{
@@ -57,7 +57,7 @@ func (c12) Runs(t Tier) int {
 }
 func (c12) RecordWidths() map[string]int { return nil }
 func (c12) RequiredProbes() []string {
-	return []string{"missing-interior-file-block", "missing-last-leaf", "missing-first-leaf", "missing-last-link-shard", "missing-nested-shard", "lookup-blocked", "lookup-not-blocked-under-fault", "kth-load-transient", "subset-fault", "hamt-depth>=3", "dedup-file-block-faulted", "missing-empty-block", "repeated-lookups-same-node", "file-reread-after-recovery", "iterate-again-after-recovery", "well-known-error-value", "file-without-blocksizes", "seek-then-read-under-fault", "preload-under-fault", "linksystem-with-node-reifier"}
+	return []string{"missing-interior-file-block", "missing-last-leaf", "missing-first-leaf", "missing-last-link-shard", "missing-nested-shard", "lookup-blocked", "lookup-not-blocked-under-fault", "kth-load-transient", "subset-fault", "hamt-depth>=3", "dedup-file-block-faulted", "missing-empty-block", "repeated-lookups-same-node", "file-reread-after-recovery", "iterate-again-after-recovery", "well-known-error-value", "file-without-blocksizes", "seek-then-read-under-fault", "store-goes-away-at-load-k", "preload-under-fault", "linksystem-with-node-reifier"}
 }
 
 type c12Scenario struct {
@@ -78,6 +78,7 @@ type faultPlan struct {
 	kth     int       // >=0: the kth read request fails once (transient)
 	after   int
 	flavour int // 0: opaque injected error; 1..3: well-known error values, see flavourErr
+	onward  bool // with kth >= 0: every request from the kth on fails (the store went away / the context was cancelled)
 }
 
 // flavourErr returns the error value a real store might fail with. Code that
@@ -91,6 +92,8 @@ func flavourErr(f int, c string) error {
 		return &fs.PathError{Op: "open", Path: "/blocks/" + c, Err: fs.ErrNotExist}
 	case 3:
 		return fmt.Errorf("read block %s: %w", c, context.DeadlineExceeded)
+	case 6:
+		return context.Canceled
 	case 5:
 		// a store that runs out of data while looking for the block (a
 		// truncated CAR stream, a block file cut to zero length) and reports
@@ -110,7 +113,10 @@ func (p faultPlan) String() string {
 	if p.flavour > 0 {
 		q := p
 		q.flavour = 0
-		return q.String() + " failing with " + []string{"", "io.ErrUnexpectedEOF", "*fs.PathError{fs.ErrNotExist}", "wrapped context.DeadlineExceeded", "traversal.SkipMe{}", "io.EOF"}[p.flavour]
+		return q.String() + " failing with " + []string{"", "io.ErrUnexpectedEOF", "*fs.PathError{fs.ErrNotExist}", "wrapped context.DeadlineExceeded", "traversal.SkipMe{}", "io.EOF", "context.Canceled"}[p.flavour]
+	}
+	if p.kth >= 0 && p.onward {
+		return fmt.Sprintf("%s@every load from #%d on", p.kind, p.kth)
 	}
 	if p.kth >= 0 {
 		return fmt.Sprintf("%s@load#%d(once)", p.kind, p.kth)
@@ -140,7 +146,9 @@ func (p faultPlan) install(st *store.Store) func() []cid.Cid {
 	}
 	st.ReadPolicy = func(nth int, c cid.Cid) *store.ReadFault {
 		fire := false
-		if p.kth >= 0 {
+		if p.kth >= 0 && p.onward {
+			fire = nth >= p.kth
+		} else if p.kth >= 0 {
 			fire = nth == p.kth
 		} else {
 			fire = tset[c.KeyString()]
@@ -189,7 +197,7 @@ func isLoadError(err error) bool {
 	if errors.As(err, &hm) {
 		return true
 	}
-	if errors.Is(err, io.ErrUnexpectedEOF) || errors.Is(err, fs.ErrNotExist) || errors.Is(err, context.DeadlineExceeded) {
+	if errors.Is(err, io.ErrUnexpectedEOF) || errors.Is(err, fs.ErrNotExist) || errors.Is(err, context.DeadlineExceeded) || errors.Is(err, context.Canceled) {
 		return true // the flavoured injections
 	}
 	var skip traversal.SkipMe
@@ -481,6 +489,13 @@ func (c12) runFile(ts *tape.Set, tier Tier) *Result {
 	if nLoads > 1 {
 		plans = append(plans, faultPlan{kind: faultKinds[nLoads%4], kth: nLoads - 1, after: 5})
 	}
+	// the store goes away (or the caller's context is cancelled) at load k:
+	// that request and every later one fail
+	for _, k := range []int{1, nLoads / 3, nLoads / 2, nLoads - 1} {
+		if k >= 1 && k < nLoads {
+			plans = append(plans, faultPlan{kind: store.EIOOpen, kth: k, onward: true, flavour: []int{0, 6}[k%2]})
+		}
+	}
 	sr := tape.NewSplitMix(subsetSeed)
 	for i := 0; i < 6 && len(blocks) >= 2; i++ {
 		n := 2 + int(sr.Next()%2)
@@ -527,7 +542,11 @@ func (c12) runFile(ts *tape.Set, tier Tier) *Result {
 		// expected prefix
 		var okLens map[int64]bool
 		if p.kth >= 0 {
-			res.probe("kth-load-transient")
+			if p.onward {
+				res.probe("store-goes-away-at-load-k")
+			} else {
+				res.probe("kth-load-transient")
+			}
 			okLens = starts[hit[0].KeyString()]
 			if okLens == nil {
 				// the library requested a block the read from offset a does not
@@ -580,7 +599,7 @@ func (c12) runFile(ts *tape.Set, tier Tier) *Result {
 		}
 		sig = fnvMix(sig, uint64(p.kind), boolU(p.kth >= 0), uint64(len(p.targets)), boolU(rerr == io.EOF), boolU(isLoadError(rerr)))
 		sig = sigOfLog(sig, log)
-		if noSizes && p.kth >= 0 && rerr == io.EOF && bytes.Equal(data, content) {
+		if noSizes && p.kth >= 0 && !p.onward && rerr == io.EOF && bytes.Equal(data, content) {
 			res.probe("transient-fault-absorbed-while-measuring")
 			continue
 		}
@@ -592,7 +611,7 @@ func (c12) runFile(ts *tape.Set, tier Tier) *Result {
 					max = l
 				}
 			}
-			if p.kth >= 0 {
+			if p.kth >= 0 && !p.onward {
 				max = int64(len(content))
 			}
 			okLens = map[int64]bool{int64(len(data)): int64(len(data)) <= max}
@@ -735,6 +754,14 @@ func (c12) runDir(ts *tape.Set, tier Tier) *Result {
 			tg = append(tg, shards[int(pr.Next()%uint64(len(shards)))])
 		}
 		plans = append(plans, faultPlan{kind: faultKinds[int(pr.Next()%4)], targets: tg, kth: -1, after: int(pr.Next() & 0xffff)})
+	}
+	// the store goes away at the k-th shard load: for a directory (each shard
+	// is loaded once) that is a persistent fault on the tail of the walk order
+	all := model.ShardDFS()
+	for _, k := range []int{1, len(all) / 2, len(all) - 1} {
+		if k >= 1 && k < len(all) && len(all)-k <= 200 {
+			plans = append(plans, faultPlan{kind: store.EIOOpen, targets: append([]cid.Cid(nil), all[k:]...), kth: -1, flavour: []int{0, 6}[k%2]})
+		}
 	}
 	// transient: k-th load of a full iteration fails once
 	nShardLoads := len(model.Shards) // root + children
